@@ -10,8 +10,15 @@ package main
 //   * edit   = the index expressions of every per-class slice access of the function and, transitively, of
 //              the package functions it calls (callee parameters replaced by the actual arguments),
 //   * bracket= on EVERY control path of the function the mutex goes  not-held → Lock() → held → Unlock() → released
-//              at most once, every per-class access (own or inside a callee) happens while it is held, and the
-//              function is left (return / end of body) not holding it.  This is computed by a small abstract
+//              at most once, every per-class slice access AND every access (read or write, also in a condition) to a
+//              field of a page header or free-list node — `X.f` with X of normal form H(…) / N(…), i.e. the shared
+//              state in mmap'd memory: used, brk, free, freeList, evacuating and all link fields — own or inside
+//              a callee, happens while it is held, and the function is left (return / end of body) not holding it.
+//              One exception, which is what the source does: READING H(…).class before Lock() to choose the mutex.
+//              `X.f` / `*X` with an X the normal form cannot classify (a local assigned twice, a call result) counts
+//              as header memory (unknown ⇒ flagged); S(…) — the slice header of a slot — does not (after Malloc's
+//              Unlock the slot belongs to the caller).  An access inside a `go` statement or a stored closure of a
+//              CALLEE does not run at the call's position and is flagged wherever it is.  This is computed by a small abstract
 //              execution of the function's statements (if / switch arms are joined, a loop body must preserve
 //              the state, `defer a.classMu[E].Unlock()` releases at every exit), so early-return vs else,
 //              an if-chain vs a switch, or Lock()/Unlock() moved into a helper do not change the answer.
@@ -110,7 +117,22 @@ func (x *lockExec) apply(n ast.Node, st int) int {
 			continue
 		}
 		x.used[i] = true
+		if e.async {
+			x.fail(e.pos, "%s (%s) inside a goroutine / stored closure started by a callee: it does not run inside the caller's critical section", e.a, e.via)
+			continue
+		}
 		switch e.kind {
+		case "hmem":
+			// a field of a page header / free-list node.  The one access the allocator makes outside the critical
+			// section is READING header.class to choose the mutex (written once when the page is linked, under
+			// the mutex, and constant while the page holds a live slot).
+			if st != stHeld && !(e.b == "class" && !e.lhs) {
+				x.fail(e.pos, "%s.%s (page header / node memory, %s) is accessed while the class mutex is not held", e.a, e.b, e.via)
+			}
+		case "hmem?":
+			if st != stHeld {
+				x.fail(e.pos, "memory behind `%s` (.%s, %s) is accessed while the class mutex is not held and the translator cannot tell that it is not page header / node memory", e.a, e.b, e.via)
+			}
 		case "mu":
 			switch e.a {
 			case "Lock":
@@ -344,6 +366,7 @@ func lockFactOf(w *world, perClass map[string]bool, name string) lockFact {
 	fn := w.entry(name)
 	x := &lockExec{fn: fn}
 	set := map[string]bool{}
+	nmem := 0
 	w.walk(fn, func(e event) {
 		switch e.kind {
 		case "unknown-method":
@@ -358,6 +381,10 @@ func lockFactOf(w *world, perClass map[string]bool, name string) lockFact {
 		case "mu":
 			e.b = number(e.b)
 			x.evs = append(x.evs, e)
+		case "hmem", "hmem?":
+			e.a = number(e.a)
+			x.evs = append(x.evs, e)
+			nmem++
 		}
 	})
 	sort.SliceStable(x.evs, func(i, j int) bool { return x.evs[i].pos < x.evs[j].pos })
@@ -376,6 +403,9 @@ func lockFactOf(w *world, perClass map[string]bool, name string) lockFact {
 	}
 	if len(set) == 0 {
 		die(fmt.Errorf("%s: no access to per-class state found (shape not understood)", name))
+	}
+	if nmem == 0 {
+		die(fmt.Errorf("%s: no access to page header / node memory found (shape not understood)", name))
 	}
 	if len(set) != 1 {
 		var l []string
@@ -488,7 +518,7 @@ inductive ClassSel where
 		if !f.brackets {
 			why = " — NOT SO: " + strings.ReplaceAll(f.why, "-/", "- /")
 		}
-		fmt.Fprintf(sb, "/-- %s: on every control path the class mutex is locked at most once, every per-class access (own or in a callee) happens while it is held, and the function is left with the mutex released%s -/\ndef %s : Bool := %v\n", fn, why, name, f.brackets)
+		fmt.Fprintf(sb, "/-- %s: on every control path the class mutex is locked at most once; every access to a per-class slice of the Allocator and every access to a field of a page header / free-list node (H(…).f, N(…).f, or memory behind a pointer the translator cannot classify), own or in a callee, happens while it is held — except reading H(…).class to choose the mutex; no such access sits in a goroutine / stored closure started by a callee; the function is left with the mutex released.  NOT pinned: accesses through function values, through other packages, and the slot's slice header S(…)%s -/\ndef %s : Bool := %v\n", fn, why, name, f.brackets)
 		facts++
 	}
 	br("mallocLockBrackets", "Malloc", mf)
